@@ -93,6 +93,7 @@ func (c *GoCont) RunInThread(t *Thread) (next Cont, err error) {
 		return nil, err
 	}
 	t.RequireCPU(1)
+	verifGoStep(t, c)
 
 	t.goFunctionCallDepth++
 	defer func() { t.goFunctionCallDepth-- }()
